@@ -36,6 +36,24 @@ CHECKS["C09"] = dict(
     note=NOTE_BASE + "Modelled: all elements enabled.",
     technique="Coq proof (invariant by induction over operations) + exhaustive transition correspondence",
     design="4/C09")
+CHECKS["C13"] = dict(
+    text="Theorem accepted_messages_are_conformant: for EVERY XML element tree, from_xml (an interpreter of Python keyword binding + checks over the "
+         "regenerated registry) either fails or yields a message satisfying the protocol table written from the INDI DTD (vocabularies, required "
+         "attributes, child kinds, number syntax); reg_ok_c13 and probes_ok (every recorded constructor decision matches the field's classification) are "
+         "proved by vm_compute on the regenerated registry each run. Correspondence: IndiMessage.from_xml on ElementTree elements with systematic "
+         "perturbations and random trees, accept/reject and parsed object compared.",
+    note=NOTE_BASE + "Modelled: Python keyword binding (required/optional/**junk/self), str.strip, the shared number regex (check_number).",
+    technique="Coq proof (generic over registry, instantiated with the regenerated live registry) + correspondence",
+    design="4/C13")
+CHECKS["C03"] = dict(
+    text="Theorems element_roundtrip (from_xml (to_xml m) = norm m for every constructible message, any kind / attribute subset / number of children / "
+         "text) and reserialisation_is_identical, over the live registry. The byte level is PARTIAL: string_roundtrip_partial is conditional on the XML "
+         "layer's round trip parse(print t)=t, which is not yet proved for the streaming XML model; it is validated every run by running the model parser "
+         "on the implementation's bytes, the implementation's parser on the model's bytes and on 3 foreign spellings, and the model lexer against expat on "
+         "valid/mutated/junk documents incl. a Latin-1 sweep.",
+    note=NOTE_BASE + "PARTIAL: the XML text layer (Xml.Lex/Xml.Print vs expat/ElementTree.tostring) is validated by correspondence, not proved.",
+    technique="Coq proof at element level + correspondence-validated XML layer (partial at byte level)",
+    design="4/C03")
 PENDING = {}
 props = [json.loads(l) for l in open(os.path.join(V, "properties.jsonl"))]
 checks, na = [], []
